@@ -271,7 +271,11 @@ where
                     (None, None, vec![])
                 }
             }
-            SpacesArgs::SpaceUpdate { .. } => unimplemented!(),
+            // Rotating the entropy of a space is not supported yet. This variant can still arrive
+            // from remote peers, so it needs to be rejected instead of aborting the process.
+            SpacesArgs::SpaceUpdate { .. } => {
+                return Err(ManagerError::UnexpectedMessage(message.hash()));
+            }
             // Received encrypted application data for a space.
             SpacesArgs::Application { space_id, .. } => {
                 let Some(space) = self.space(*space_id).await? else {
